@@ -67,6 +67,7 @@ Print Assumptions component_roundtrip.
    decodes to the same pairs in glyph-ID order, for any set of at most 65535 pairs that fit their fields *)
 From FV Require C02.ModelKern C02.ProofsKern.
 From FV Require C02.ModelCmap6 C02.ProofsCmap6.
+From FV Require C02.ModelCmap4 C02.ProofsCmap4.
 Theorem kern0_roundtrip : forall apple coverage ti pairs bytes,
   NoDup (map ProofsKern.key pairs) -> Z.of_nat (length pairs) <= 65535 ->
   ModelKern.kern0_compile apple coverage ti pairs = Ok bytes ->
@@ -86,3 +87,22 @@ Theorem cmap6_roundtrip : forall language m,
   end.
 Proof. exact ProofsCmap6.cmap6_roundtrip. Qed.
 Print Assumptions cmap6_roundtrip.
+
+(* cmap format 4 (segment mapping to delta values), the format nearly every font carries: whatever segments splitRange decides on,
+   a mapping given in increasing code order with glyph IDs 1..65535 comes back unchanged, with its language, whenever compile
+   succeeds (it refuses tables whose length, range offsets or codes do not fit 16 bits) *)
+Theorem cmap4_roundtrip : forall language m,
+  ProofsCmap6.sorted_from 0 m -> ProofsCmap4.gid16 m ->
+  match ModelCmap4.cmap4_compile language m with
+  | Ok bytes => ModelCmap4.cmap4_decompile bytes = Ok (language, m)
+  | Err _ => True
+  end.
+Proof. exact ProofsCmap4.cmap4_roundtrip. Qed.
+Print Assumptions cmap4_roundtrip.
+
+(* the segments compile builds (splitRange included) tile the codes of the mapping, in order *)
+Theorem cmap4_segments_tile : forall m ss es, ModelCmap4.segments m = (ss, es) ->
+  exists ss1 es1, ss = ss1 ++ [65535] /\ es = es1 ++ [65535] /\ length ss1 = length es1 /\
+                  ProofsCmap4.ranges_codes ss1 es1 = map fst m.
+Proof. exact ProofsCmap4.segments_tile. Qed.
+Print Assumptions cmap4_segments_tile.
